@@ -136,7 +136,7 @@ func writeEvidence(verif, prop, tier string, seed int64, reports []*harnessRepor
 	if err != nil {
 		return err
 	}
-	dir := filepath.Join(verif, "evidence")
+	dir := evidenceDir(verif)
 	os.MkdirAll(dir, 0o755)
 	return os.WriteFile(filepath.Join(dir, prop+".json"), append(b, '\n'), 0o644)
 }
